@@ -619,6 +619,13 @@ def CallStep (B : Builtins) (rec top : Rec) (env : Env) (callee : SVal) (argv : 
     step B rec top env len (.call argv.length) pc { stack := callee :: (argv.map .val ++ st), log := log } =
       .ok pc { stack := .val r :: st, log := log }
 
+theorem go_callStep {callee : SVal} {argv : List Val} {r : Val} (hstep : CallStep B rec top env callee argv r)
+    (rest : List Instr) :
+    Go B rec top env (.call argv.length :: rest) 1 0 (callee :: argv.map .val) 1 [.val r] :=
+  Go.instr (fun pre post st log => by
+    have := hstep (pre ++ (Instr.call argv.length :: rest) ++ post).length (pre.length + 0 + 1) st log
+    simpa using this)
+
 /-- `PUSH aₙ; …; PUSH a₁; callee code; CALL n`. -/
 theorem runs_call {cc : List Instr} {callee : SVal} (hc : RunsE B rec top env cc callee) (argv : List Val)
     {r : Val} (hr : Plain r) (hstep : CallStep B rec top env callee argv r) :
@@ -628,26 +635,41 @@ theorem runs_call {cc : List Instr} {callee : SVal} (hc : RunsE B rec top env cc
   have g1 := go_pushes (B := B) (rec := rec) (top := top) (env := env) argv.reverse (cc ++ [.call argv.length])
   simp only [List.reverse_reverse, List.length_reverse] at g1
   have g2 := (((gc.head_app [.call argv.length]).skip_app (argv.reverse.map .push)).frame (argv.map .val))
-  have g3 : Go B rec top env (.call argv.length :: []) 1 0 (callee :: argv.map .val) 1 [.val r] :=
-    Go.instr (fun pre post st log => by
-      have := hstep (pre ++ [Instr.call argv.length] ++ post).length (pre.length + 0 + 1) st log
-      simpa using this)
+  have g3 := go_callStep hstep []
   have g3' := (g3.skip_app cc).skip_app (argv.reverse.map .push)
   rw [List.append_assoc]
   exact ((g1.trans (g2.cast rfl (by simp) rfl)).trans (g3'.cast rfl (by simp) rfl)).cast
     (by omega) rfl (by simp)
 
-/-- `resolve_args` on `argv` yields `vals`, or the first failing one. -/
-def ArgsEval (rec : Rec) (env : Env) (argv vals : List Val) : Prop :=
+/-- Outcome of `resolve_args`: the argument values, or the failure of the first failing block. -/
+abbrev ArgsRes := Except ErrKind (List Val)
+
+/-- The outcome for argument blocks with the values `vals`. -/
+def argsRes (vals : List Val) : ArgsRes :=
+  match firstErr vals with
+  | some k => .error k
+  | none => .ok vals
+
+/-- `resolve_args` on `argv` has the outcome `res` (and leaves the log alone). -/
+def ArgsEval (rec : Rec) (env : Env) (argv : List Val) (res : ArgsRes) : Prop :=
   ∀ log, resolveArgs rec env argv log =
-    match firstErr vals with
-    | some k => .error (.err k, log)
-    | none => .ok (vals, log)
+    match res with
+    | .error k => .error (.err k, log)
+    | .ok vals => .ok (vals, log)
+
+/-- A function applied to the outcome of the arguments. -/
+def applyRes (f : List Val → Val) : ArgsRes → Val
+  | .error k => .err k
+  | .ok vs => f vs
+
+theorem applyRes_argsRes (f : List Val → Val) (vals : List Val) : applyRes f (argsRes vals) = applyArgs f vals := by
+  unfold argsRes applyArgs
+  cases firstErr vals <;> rfl
 
 /-- Argument blocks, each of which runs (one level down) to its value. -/
 theorem argsEval_blocks (bvs : List (List Instr × Val))
     (h : ∀ p ∈ bvs, ∀ log, rec env p.1 true log = outOf p.2 log) :
-    ArgsEval rec env (bvs.map (fun p => .code p.1)) (bvs.map (·.2)) := by
+    ArgsEval rec env (bvs.map (fun p => .code p.1)) (argsRes (bvs.map (·.2))) := by
   induction bvs with
   | nil => intro log; rfl
   | cons p ps ih =>
@@ -655,12 +677,12 @@ theorem argsEval_blocks (bvs : List (List Instr × Val))
     intro log
     have h1 := h (c, v) (List.mem_cons_self ..) log
     have ih' := ih (fun q hq => h q (List.mem_cons_of_mem _ hq)) log
-    simp only [List.map_cons, resolveArgs, h1]
+    simp only [List.map_cons, resolveArgs, h1, argsRes] at ih' ⊢
     cases v <;> simp only [outOf, firstErr, ih'] <;> (try (cases firstErr (ps.map (·.2)) <;> rfl))
 
 /-- A single argument that is a value already (not a block) is passed as it is, failing or not. -/
-theorem resolveArgs_single {v : Val} (hv : Data v) (log : Log) :
-    resolveArgs rec env [v] log = .ok ([v], log) := by
+theorem argsEval_single {v : Val} (hv : Data v) : ArgsEval rec env [v] (.ok [v]) := by
+  intro log
   cases v <;> simp_all [resolveArgs, Data, isData]
 
 theorem popN_plain (hnp : NoProgs env) (argv : List Val) (hp : ∀ a ∈ argv, Plain a) (st : List SVal) (log : Log) :
@@ -673,19 +695,19 @@ theorem plain_code (c : List Instr) : Plain (.code c) := fun _ h => by cases h
 
 /-- Built-in function bound to its receiver. -/
 theorem callStep_builtin (hnp : NoProgs env) {name : Str} {f : Val → List Val → Val} (hf : B.func name = some f)
-    (this : Val) {argv vals : List Val} (hp : ∀ a ∈ argv, Plain a) (hev : ArgsEval rec env argv vals) :
-    CallStep B rec top env (.bound (.builtin name) this) argv (applyArgs (f this) vals) := by
+    (this : Val) {argv : List Val} {res : ArgsRes} (hp : ∀ a ∈ argv, Plain a) (hev : ArgsEval rec env argv res) :
+    CallStep B rec top env (.bound (.builtin name) this) argv (applyRes (f this) res) := by
   intro len pc st log
-  simp only [step, popRaw, popN_plain hnp argv hp, invoke, hev log, hf, applyArgs]
-  cases firstErr vals <;> simp [liftNext, pushV, Abort.kind]
+  simp only [step, popRaw, popN_plain hnp argv hp, invoke, hev log, hf, applyRes]
+  cases res <;> simp [liftNext, pushV, Abort.kind]
 
 /-- Type constructor (the callee is a type value). -/
-theorem callStep_type (hnp : NoProgs env) (tn : Str) {argv vals : List Val} (hp : ∀ a ∈ argv, Plain a)
-    (hev : ArgsEval rec env argv vals) :
-    CallStep B rec top env (.val (.type tn)) argv (applyArgs (B.ctor tn) vals) := by
+theorem callStep_type (hnp : NoProgs env) (tn : Str) {argv : List Val} {res : ArgsRes} (hp : ∀ a ∈ argv, Plain a)
+    (hev : ArgsEval rec env argv res) :
+    CallStep B rec top env (.val (.type tn)) argv (applyRes (B.ctor tn) res) := by
   intro len pc st log
-  simp only [step, popRaw, popN_plain hnp argv hp, hev log, applyArgs]
-  cases firstErr vals <;> simp [pushV, Abort.kind]
+  simp only [step, popRaw, popN_plain hnp argv hp, hev log, applyRes]
+  cases res <;> simp [pushV, Abort.kind]
 
 /-- Any other data value as callee: a Runtime failure. -/
 theorem callStep_other (hnp : NoProgs env) {v : Val} (hv : Data v) (hnt : ∀ tn, v ≠ .type tn)
@@ -716,28 +738,41 @@ theorem data_fieldEntry {o : Val} (ho : Data o) {name : Str} {v : Val} (h : fiel
   · exact data_mapGet (data_map.mp ho) h
   · cases h
 
+/-- A function or constructor applied to the outcome of its arguments. -/
+def callRes (B : Builtins) : CallKind → ArgsRes → Val
+  | .func f this, res => applyRes (f this) res
+  | .ctor tn, res => applyRes (B.ctor tn) res
+  | .macro_ _, _ => notCovered
+  | .none, _ => .err .runtime
+
+theorem callRes_argsRes (k : CallKind) (vals : List Val) : callRes B k (argsRes vals) = callStrict B k vals := by
+  cases k <;> simp [callRes, callStrict, applyRes_argsRes]
+
+theorem callRes_ok (k : CallKind) (vals : List Val) : callRes B k (.ok vals) = callRaw B k vals := by
+  cases k <;> rfl
+
 /-- What the spec asks of the result `r` of a call whose callee denotes `k`: a macro gives what `callMacro`
-    gives on the argument blocks; everything else is `callStrict`. -/
-def CallResult (B : Builtins) (rec top : Rec) (env : Env) (k : CallKind) (name : Str) (argv vals : List Val)
-    (r : Val) : Prop :=
+    gives on the argument blocks; everything else is `callRes`. -/
+def CallResult (B : Builtins) (rec top : Rec) (env : Env) (k : CallKind) (name : Str) (argv : List Val)
+    (res : ArgsRes) (r : Val) : Prop :=
   match k with
   | .macro_ this => ∃ blocks, argv = blocks.map .code ∧ ∀ log, callMacro rec top env name this blocks log = (r, log)
-  | k => r = callStrict B k vals
+  | k => r = callRes B k res
 
 /-- `f(..)`: the callee is the unresolved name. -/
-theorem callStep_ident (henv : EnvOK env) (fname : Str) {argv vals : List Val} (hp : ∀ a ∈ argv, Plain a)
-    (hev : ArgsEval rec env argv vals) {r : Val}
-    (hr : CallResult B rec top env (fnKind B env fname) fname argv vals r) :
+theorem callStep_ident (henv : EnvOK env) (fname : Str) {argv : List Val} {res : ArgsRes}
+    (hp : ∀ a ∈ argv, Plain a) (hev : ArgsEval rec env argv res) {r : Val}
+    (hr : CallResult B rec top env (fnKind B env fname) fname argv res r) :
     CallStep B rec top env (.val (.ident fname)) argv r := by
   unfold CallResult fnKind at hr
   cases hf : B.func fname with
   | some f =>
-    simp only [hf, callStrict] at hr
+    simp only [hf, callRes] at hr
     subst hr
     intro len pc st log
     simp only [step, popRaw, popN_plain henv.noProgs argv hp, getFunc_eq henv, hf, Option.isSome_some, if_true,
-      invoke, hev log, applyArgs]
-    cases firstErr vals <;> simp [liftNext, pushV, Abort.kind]
+      invoke, hev log, applyRes]
+    cases res <;> simp [liftNext, pushV, Abort.kind]
   | none =>
     simp only [hf] at hr
     cases hm : env.isMacro fname with
@@ -753,16 +788,16 @@ theorem callStep_ident (henv : EnvOK env) (fname : Str) {argv vals : List Val} (
       intro len pc st log
       simp only [step, popRaw, popN_plain henv.noProgs argv hp, getFunc_eq henv, hf, Option.isSome_none, hm]
       cases ht : env.getType fname with
-      | none => simp only [ht, callStrict] at hr; subst hr; simp [pushV]
+      | none => simp only [ht, callRes] at hr; subst hr; simp [pushV]
       | some t =>
-        cases t <;> simp only [ht, callStrict] at hr <;> subst hr <;> (try simp [pushV])
-        simp only [hev log, applyArgs]
-        cases firstErr vals <;> simp [pushV, Abort.kind]
+        cases t <;> simp only [ht, callRes] at hr <;> subst hr <;> (try simp [pushV])
+        simp only [hev log, applyRes]
+        cases res <;> simp [pushV, Abort.kind]
 
 /-- `o.name(..)`: the callee is what `ACCESS name` left. -/
-theorem callStep_access (henv : EnvOK env) {o : Val} (ho : Data o) (name : Str) {argv vals : List Val}
-    (hp : ∀ a ∈ argv, Plain a) (hev : ArgsEval rec env argv vals) {r : Val}
-    (hr : CallResult B rec top env (methodKind B env o name) name argv vals r) :
+theorem callStep_access (henv : EnvOK env) {o : Val} (ho : Data o) (name : Str) {argv : List Val} {res : ArgsRes}
+    (hp : ∀ a ∈ argv, Plain a) (hev : ArgsEval rec env argv res) {r : Val}
+    (hr : CallResult B rec top env (methodKind B env o name) name argv res r) :
     CallStep B rec top env (accessEntry B env o name) argv r := by
   unfold CallResult methodKind at hr
   unfold accessEntry
@@ -772,7 +807,7 @@ theorem callStep_access (henv : EnvOK env) {o : Val} (ho : Data o) (name : Str) 
     simp only [hfe] at hr ⊢
     by_cases ht : ∃ tn, v = .type tn
     · obtain ⟨tn, rfl⟩ := ht
-      simp only [callStrict] at hr; subst hr
+      simp only [callRes] at hr; subst hr
       exact callStep_type henv.noProgs tn hp hev
     · have hr' : r = .err .runtime := by
         cases v <;> first | exact hr | exact absurd ⟨_, rfl⟩ ht
@@ -783,7 +818,7 @@ theorem callStep_access (henv : EnvOK env) {o : Val} (ho : Data o) (name : Str) 
     simp only [Env.callable, getFunc_eq henv]
     cases hf : B.func name with
     | some f =>
-      simp only [hf, callStrict] at hr; subst hr
+      simp only [hf, callRes] at hr; subst hr
       simp only [Option.isSome_some, if_true]
       exact callStep_builtin henv.noProgs hf o hp hev
     | none =>
@@ -794,7 +829,7 @@ theorem callStep_access (henv : EnvOK env) {o : Val} (ho : Data o) (name : Str) 
         obtain ⟨blocks, rfl, hmac⟩ := hr
         exact callStep_macro henv.noProgs name o blocks hmac
       | false =>
-        have hr' : r = .err .runtime := by simpa [hm, callStrict] using hr
+        have hr' : r = .err .runtime := by simpa [hm, callRes] using hr
         subst hr'
         simp only [Bool.false_eq_true, if_false]
         by_cases he : o.isErr = true
@@ -802,6 +837,102 @@ theorem callStep_access (henv : EnvOK env) {o : Val} (ho : Data o) (name : Str) 
           exact callStep_other henv.noProgs ho (by intro tn h; subst h; simp [Val.isErr] at he) hp
         · simp only [he, if_false]
           exact callStep_other henv.noProgs (data_err _) (by intro tn h; cases h) hp
+
+/-- What a call kind needs for its results to be data. -/
+def KindOK (B : Builtins) : CallKind → Prop
+  | .func f this => (∃ name, B.func name = some f) ∧ Data this
+  | .macro_ this => Data this
+  | _ => True
+
+theorem kindOK_fnKind (name : Str) : KindOK B (fnKind B env name) := by
+  unfold fnKind
+  split
+  · rename_i f hf; exact ⟨⟨name, hf⟩, data_null⟩
+  · split
+    · exact data_null
+    · split <;> trivial
+
+theorem kindOK_methodKind {o : Val} (ho : Data o) (name : Str) : KindOK B (methodKind B env o name) := by
+  unfold methodKind
+  split
+  · trivial
+  · trivial
+  · split
+    · rename_i f hf; exact ⟨⟨name, hf⟩, ho⟩
+    · split
+      · exact ho
+      · trivial
+
+theorem data_callRaw (hB : BuiltinsOK B) {k : CallKind} (hk : KindOK B k) {vs : List Val} (hvs : ∀ a ∈ vs, Data a) :
+    Data (callRaw B k vs) := by
+  cases k with
+  | func f this => obtain ⟨⟨n, hn⟩, ht⟩ := hk; exact hB.func n f this vs hn ht hvs
+  | macro_ this => rfl
+  | ctor tn => exact hB.ctor tn vs hvs
+  | none => rfl
+
+theorem data_applyArgs {f : List Val → Val} {vs : List Val} (h : Data (f vs)) : Data (applyArgs f vs) := by
+  unfold applyArgs; split
+  · rfl
+  · exact h
+
+theorem data_callStrict (hB : BuiltinsOK B) {k : CallKind} (hk : KindOK B k) {vs : List Val} (hvs : ∀ a ∈ vs, Data a) :
+    Data (callStrict B k vs) := by
+  cases k with
+  | func f this => obtain ⟨⟨n, hn⟩, ht⟩ := hk; exact data_applyArgs (hB.func n f this vs hn ht hvs)
+  | macro_ this => rfl
+  | ctor tn => exact data_applyArgs (hB.ctor tn vs hvs)
+  | none => rfl
+
+theorem callResult_of_not_macro {k : CallKind} (h : ∀ this, k ≠ .macro_ this) (name : Str) (argv : List Val)
+    (res : ArgsRes) : CallResult B rec top env k name argv res (callRes B k res) := by
+  unfold CallResult
+  cases k with
+  | macro_ this => exact absurd rfl (h this)
+  | _ => rfl
+
+theorem fnKind_not_macro {name : Str} (h : env.isMacro name = false) : ∀ this, fnKind B env name ≠ .macro_ this := by
+  intro this
+  unfold fnKind
+  split
+  · intro hh; cases hh
+  · rw [h]; simp only [Bool.false_eq_true, if_false]
+    split <;> (intro hh; cases hh)
+
+theorem isMacro_type : env.isMacro "type".toList = false := by
+  unfold Env.isMacro
+  cases env.hasBinds <;> cases env.compileMode <;> decide
+
+theorem isMacro_string : env.isMacro "string".toList = false := by
+  unfold Env.isMacro
+  cases env.hasBinds <;> cases env.compileMode <;> decide
+
+/-- A type pattern `case T:` on top of the copy of the scrutinee: `type(v) == T`. -/
+theorem go_pat_type (henv : EnvOK env) (hB : BuiltinsOK B) {v : Val} (hv : Data v) (name : Str) :
+    ∃ k, k ≤ [Instr.push (.ident "type".toList), .call 1, .push (.ident name), .eq].length ∧
+      Go B rec top env [.push (.ident "type".toList), .call 1, .push (.ident name), .eq] k 0 [.val v]
+        [Instr.push (.ident "type".toList), .call 1, .push (.ident name), .eq].length
+        [.val (valEq (callRaw B (fnKind B env "type".toList) [v]) (resolveIdent env name))] := by
+  have hnm := fnKind_not_macro (B := B) (env := env) isMacro_type
+  have hstep : CallStep B rec top env (.val (.ident "type".toList)) [v]
+      (callRaw B (fnKind B env "type".toList) [v]) := by
+    have := callStep_ident (B := B) (rec := rec) (top := top) henv "type".toList (argv := [v]) (res := .ok [v])
+      (by intro a ha; simp only [List.mem_singleton] at ha; subst ha; exact hv.plain)
+      (argsEval_single hv) (callResult_of_not_macro hnm _ _ _)
+    rwa [callRes_ok] at this
+  have hd : Data (callRaw B (fnKind B env "type".toList) [v]) :=
+    data_callRaw hB (kindOK_fnKind _) (by intro a ha; simp only [List.mem_singleton] at ha; subst ha; exact hv)
+  refine ⟨4, by simp, ?_⟩
+  have g1 := (go_push (B := B) (rec := rec) (top := top) (env := env) (.ident "type".toList)
+    [.call 1, .push (.ident name), .eq]).frame [.val v]
+  have g2 := (go_callStep hstep [.push (.ident name), .eq]).skip_cons (.push (.ident "type".toList))
+  have g3 := (((go_push (B := B) (rec := rec) (top := top) (env := env) (.ident name) [.eq]).skip_cons
+    (.call 1)).skip_cons (.push (.ident "type".toList))).frame [.val (callRaw B (fnKind B env "type".toList) [v])]
+  have g4 := (((go_binop (B := B) (rec := rec) (top := top) henv.noProgs (i := .eq) (f := valEq) (fun _ _ _ => rfl)
+    (callRaw B (fnKind B env "type".toList) [v]) (.ident name) []).skip_cons (.push (.ident name))).skip_cons
+    (.call 1)).skip_cons (.push (.ident "type".toList))
+  rw [resolve_plain hd.plain] at g4
+  exact (((g1.trans g2).trans g3).trans g4).cast rfl rfl rfl
 
 /-! ### FMT -/
 
